@@ -276,6 +276,9 @@ impl Prop for C04 {
     fn id(&self) -> &'static str {
         "C04"
     }
+    fn canary(&self) -> bool {
+        true
+    }
     fn rule(&self) -> String {
         "cases = one logical server message of a chosen size, realised by an assembly (text row of 1-4 cells whose encoded sizes sum to the target with cell boundaries before/at/after the packet limit; binary row; ERR message; column definition with a huge name; a text row abandoned with finish_error after its first 1-2 cells were written), preceded/followed by ordinary rows and PINGs, optionally with short transport writes, after a handshake response that announces a generated max_packet_size (0, 1 KiB ... 1 GiB; the server's framing must not depend on it) and character set; 1 case in 600 is instead a text or binary row of 17-70 MB laid out against the packet boundaries (cells of 1x-3x the packet size, several per row, small cells before / between / after). One case in four is run on a transport that fails once at a generated write()/flush() call (ConnectionReset, Other, BrokenPipe, TimedOut, WouldBlock or Interrupted; with short writes, so that the failure also falls inside packets) and works again afterwards: when the failure cut a packet short, the bytes handed to the transport before and after it must be a prefix of the fault-free output (a truncated packet can only be continued where it stopped); when it fell on a packet boundary they must be whole packets. Sizes: enumerated k*(2^24-1)+d for k in {1,2}, d in a window around 0, plus random sizes (small ones by the thousands). Oracle: independent framer over the raw output (consumed exactly; every fragment but the last of a long message is 0xFFFFFF bytes, the last shorter, possibly empty), reassembled messages decoded and compared with the values written. Non-trivial = message >= 2^24-1-8 bytes.".into()
     }
